@@ -852,6 +852,13 @@ func checkEscaper(w *World, c *Check, rule string) {
 							ks, okk = got, true
 							break
 						}
+						// a join reached both on "the rune is one of the separators" and on another condition (invalid :=
+						// …; separator := …; if !invalid && !separator { continue }): the ways in that contradict what is
+						// known at the write (… else branch of `if invalid`) do not count
+						if got, ok := enterConstsGiven(d, isRune, knownAt(b)); ok {
+							ks, okk = got, true
+							break
+						}
 					}
 					bad := ""
 					if !okk {
@@ -1153,4 +1160,50 @@ func boundStr(v ssa.Value) string {
 		return ""
 	}
 	return shortVal(v)
+}
+
+// knownAt: the truth values of branch conditions that hold in block b (dominating branches with a single way in).
+func knownAt(b *ssa.BasicBlock) map[ssa.Value]bool {
+	facts := map[ssa.Value]bool{}
+	for _, g := range rawGuards(b) {
+		facts[g.cond] = g.onTrue
+	}
+	return facts
+}
+
+// enterConstsGiven: as enterConsts, but ways into b whose own branch condition contradicts the known facts are left
+// out; at least one way must remain and each remaining one must enter on subject == constant (or a disjunction of such).
+func enterConstsGiven(b *ssa.BasicBlock, isSubject func(ssa.Value) bool, facts map[ssa.Value]bool) ([]int64, bool) {
+	if len(b.Preds) < 2 || len(facts) == 0 {
+		return nil, false
+	}
+	var ks []int64
+	n := 0
+	for _, p := range b.Preds {
+		ifi, ok := p.Instrs[len(p.Instrs)-1].(*ssa.If)
+		if !ok || len(p.Succs) != 2 {
+			return nil, false
+		}
+		cond, want := ifi.Cond, p.Succs[0] == b
+		for {
+			u, isNot := cond.(*ssa.UnOp)
+			if !isNot || u.Op != token.NOT {
+				break
+			}
+			cond, want = u.X, !want
+		}
+		if known, has := facts[cond]; has && known != want {
+			continue // this way in cannot have been taken
+		}
+		if !want {
+			return nil, false
+		}
+		got, ok := eqConstsOf(cond, isSubject, 0)
+		if !ok {
+			return nil, false
+		}
+		ks = append(ks, got...)
+		n++
+	}
+	return ks, n > 0 && len(ks) > 0
 }
